@@ -79,7 +79,7 @@ Print Assumptions C20_partial_clear_refuted.
 
 (* (8) the stash.  For EVERY reader (the model is parametric in what slip.Read says about a text: complete /
    ends inside a list or string / error) and EVERY history of Stash.Add / Clear(start, end) / use-stash / restart
-   over forms the stash file can carry (`sencodable`: no TAB, NL or empty line, not blank, the reader accepts the
+   over forms the stash file can carry (`sencodable`: no TAB or NL in a line, the first line not empty, not blank, the reader accepts the
    form after its last line and not before), from any directory whose stash file holds the loaded forms in either
    format (whatever is left in the temporary file): the stash in memory and what a fresh LoadExpanded reads both
    equal the specification - the forms in order, a repetition of the most recent form not recorded *)
@@ -128,13 +128,17 @@ Theorem C20_nth_most_recent : forall fs n,
 Proof. exact nth_form_spec. Qed.
 Print Assumptions C20_nth_most_recent.
 
-(* outside `sencodable` (known findings): an empty line inside a stashed form is lost by the next LoadExpanded;
-   an incomplete form swallows what is stashed after it *)
+(* an empty line inside a stashed form survives a restart; LoadExpanded before repo fix C20-4 dropped it *)
 Theorem C20_stash_empty_line_refuted :
   let '((fs, d), _) := srun rd_paren sstart0 [SUse; SAdd SE] in
-  fs = [SE] /\ sload rd_paren d = ([[[40; 101]; [41]]], true).
+  fs = [SE] /\ sencodable rd_paren SE = true /\ sload rd_paren d = ([SE], true) /\
+  match d_hist d with
+  | Some bs => loadx_lines_old rd_paren (file_lines bs) [] [] = ([[[40; 101]; [41]]], true)
+  | None => False
+  end.
 Proof. exact stash_empty_line_refuted. Qed.
 Print Assumptions C20_stash_empty_line_refuted.
+(* outside `sencodable` (known finding): an incomplete form swallows what is stashed after it *)
 Theorem C20_stash_incomplete_form_refuted :
   let '((fs, d), _) := srun rd_paren sstart0 [SUse; SAdd SP; SAdd SA] in
   fs = [SP; SA] /\ sload rd_paren d = ([], true).
